@@ -242,7 +242,8 @@ def run_shard(sh: Shard) -> None:
     hist, feats = {}, {}
     done = 0
     for i in range(ndocs * 3):
-        if done >= ndocs or sh.out_of_budget():
+        # the soft budget stops a shard only after its first two cases (a busy machine must not starve the minimum)
+        if done >= ndocs or (sh.out_of_budget() and done >= 2):
             break
         n = sh.shard + sh.nshards * i
         case = gen(sh, n)
